@@ -254,7 +254,7 @@ MUTANTS = [
     {"id": "quadratic-min-form", "file": QD, "old": "(inverse * cost[1] > inverse * cost[0]) or (inverse * cost[1] > inverse * cost[2])", "new": "inverse * cost[1] > inverse * min(cost[0], cost[2])"},
     {"id": "dsp-without-subpix", "file": R, "old": "                    dsp = int((disp[row, col] - d_min) * subpixel)\n                    itp_coeff[row, col] = cv[row, col, dsp]\n                    if not np.isnan(cv[row, col, dsp]):\n                        if (disp[row, col] != d_min) and (disp[row, col] != d_max):\n                            sub_disp, sub_cost, valid = method(", "new": "                    dsp = int(disp[row, col] - d_min)\n                    itp_coeff[row, col] = cv[row, col, dsp]\n                    if not np.isnan(cv[row, col, dsp]):\n                        if (disp[row, col] != d_min) and (disp[row, col] != d_max):\n                            sub_disp, sub_cost, valid = method("},
     {"id": "mask-add-valid", "file": R, "old": "                            mask[row, col] |= valid\n                        else:\n                            # If Information: calculations stopped at the pixel step, sub-pixel interpolation did\n                            # not succeed\n                            mask[row, col] |= cst.PANDORA_MSK_PIXEL_STOPPED_INTERPOLATION\n\n        return itp_coeff, disp, mask\n\n    @staticmethod\n    @abstractmethod", "new": "                            mask[row, col] += valid\n                        else:\n                            # If Information: calculations stopped at the pixel step, sub-pixel interpolation did\n                            # not succeed\n                            mask[row, col] |= cst.PANDORA_MSK_PIXEL_STOPPED_INTERPOLATION\n\n        return itp_coeff, disp, mask\n\n    @staticmethod\n    @abstractmethod"},
-    {"id": "dmax-from-attrs-swapped", "file": R, "old": '        d_min = cv.coords["disp"].data[0]\n        d_max = cv.coords["disp"].data[-1]\n        subpixel = cv.attrs["subpixel"]\n        measure = cv.attrs["type_measure"]\n        # This silences numba\'s TBB threading layer warning\n        with warnings.catch_warnings():\n            warnings.filterwarnings("ignore")\n            # Conversion to numpy array ( .data ), because Numba does not support Xarray\n            (\n                itp_coeff,\n                disp["disparity_map"].data,', "new": '        d_min = cv.coords["disp"].data[0]\n        d_max = cv.coords["disp"].data[-2]\n        subpixel = cv.attrs["subpixel"]\n        measure = cv.attrs["type_measure"]\n        # This silences numba\'s TBB threading layer warning\n        with warnings.catch_warnings():\n            warnings.filterwarnings("ignore")\n            # Conversion to numpy array ( .data ), because Numba does not support Xarray\n            (\n                itp_coeff,\n                disp["disparity_map"].data,'},
+    {"id": "dmax-from-attrs-swapped", "file": R, "old": '        d_min = cv.coords["disp"].data[0]\n        d_max = cv.coords["disp"].data[-1]\n        subpixel = cv.attrs["subpixel"]\n        measure = cv.attrs["type_measure"]\n\n        # This silences', "new": '        d_min = cv.coords["disp"].data[0]\n        d_max = cv.coords["disp"].data[-2]\n        subpixel = cv.attrs["subpixel"]\n        measure = cv.attrs["type_measure"]\n\n        # This silences'},
     {"id": "eq-interior-strict-inequalities", "kind": "equiv", "file": R, "old": "                        if (disp[row, col] != d_min) and (disp[row, col] != d_max):\n                            sub_disp, sub_cost, valid = method(", "new": "                        if d_min < disp[row, col] < d_max:\n                            sub_disp, sub_cost, valid = method("},
     {"id": "eq-extremum-de-morgan", "kind": "equiv", "file": VF, "old": "if (inverse * cost[1] > inverse * cost[0]) or (inverse * cost[1] > inverse * cost[2]):", "new": "if not ((inverse * cost[1] <= inverse * cost[0]) and (inverse * cost[2] >= inverse * cost[1])):"},
     {"id": "eq-rename-inverse-use", "kind": "equiv", "file": QD, "old": "        # Solve the system: col = alpha * row ** 2 + beta * row + gamma\n", "new": "        # Solve the system\n"},
